@@ -65,9 +65,10 @@ theorem buffers_distinct_and_bounded (cfg : Cfg) (srcs : List (List UInt8)) (n :
 
 `Ledger` replays the allocation events of a history: `allocBuf`/`importBuf`/the new side of
 `growBuf` make a buffer enter, `freeBuf`/`exportBuf`/the old side of `growBuf` make it leave.
-`EvGood` is the check each event must pass against the ledger so far; it is strict except for two
-named degenerate cases (a capacity-0 `Vec` owns no allocation: the model still emits `exportBuf b`
-for it, and a zero-length `write b 0 0` on it — `b` then never entered). -/
+`EvGood` is the check each event must pass against the ledger so far, and it is strict: enters only
+of never-seen ids with a positive capacity, `freeBuf`/`exportBuf`/the old side of `growBuf` only of a
+buffer that is in, a `write b lo hi` only into a buffer that is in with `hi` at most the capacity it
+entered with. (A capacity-0 `Vec` owns no allocation: the model emits no event for it.) -/
 
 /-- The ledger invariant holds initially … -/
 reexport HipVerif.Core.ledger_init as ledger_init
@@ -77,8 +78,7 @@ reexport HipVerif.Core.ledger_step as ledger_step
 reexport HipVerif.Core.ledger_run as ledger_run
 
 /-- **Buffers balance over every history**: every event is accepted by the ledger; a buffer enters
-at most once and leaves at most once; it leaves only after it entered (or is the capacity-0
-degenerate export); what is in the ledger at the end is exactly the buffers of the live boxes, each
+at most once and leaves at most once; it leaves only after it entered; what is in the ledger at the end is exactly the buffers of the live boxes, each
 owned by one box. -/
 reexport HipVerif.Core.buffers_balanced as buffers_balanced
 
@@ -94,5 +94,13 @@ reexport HipVerif.Core.writes_within_cap as writes_within_cap
 /-- **No write after free**: once a buffer left (freed, exported, reallocated away) no later event
 of the history writes to it. -/
 reexport HipVerif.Core.no_write_after_leave as no_write_after_leave
+
+/-- prefix-closed balance: on every PREFIX of every history, for every buffer,
+#leaves ≤ #enters ≤ 1 -/
+reexport HipVerif.Core.enter_leave_pairing as enter_leave_pairing
+
+/-- the buffer of every live box (capacity > 0) in the final state entered exactly once, with that
+capacity, and never left -/
+reexport HipVerif.Core.live_box_buffer_entered as live_box_buffer_entered
 
 end HipVerif.Props.C03
